@@ -3,6 +3,7 @@ running independent phases side by side, validating trace chunks in parallel."""
 import concurrent.futures
 import json
 import re
+import time
 
 import vlib
 
@@ -27,21 +28,60 @@ def generator(c, module, cfg, workers=4, timeout=1800, **kw):
     return r
 
 
-def side_by_side(*thunks):
+def side_by_side(*thunks, c=None, names=()):
     """Run independent phases (build, model check, generator) concurrently; return their results."""
+    def timed(t):
+        t0 = time.time()
+        r = t()
+        return r, time.time() - t0
     with concurrent.futures.ThreadPoolExecutor(max_workers=len(thunks)) as ex:
-        futs = [ex.submit(t) for t in thunks]
-        return [f.result() for f in futs]
+        futs = [ex.submit(timed, t) for t in thunks]
+        res = [f.result() for f in futs]
+    if c is not None:
+        c.notes.append("phase walls: " + ", ".join("%s=%.0fs" % (n, w) for n, (_, w) in zip(names, res)))
+    return [r for r, _ in res]
 
 
-def validate_all(c, module, cfg, traces, heap="3g", timeout=3000, maxpar=8):
+def minimal_keys(results):
+    """Keys of the form "<class>,<kind>,<kind>..." name the node kinds of the failing expression.  A
+    defect in one kind fails every expression containing it: keep, per class, only the keys whose kind
+    set is minimal (the others are implied), so that one defect is reported once."""
+    allk = {}
+    for r in results:
+        for (_, k) in r.bad:
+            cls, _, kinds = k.partition(",")
+            allk.setdefault(cls, set()).add(frozenset(kinds.split(",")) if kinds else frozenset())
+    keep = set()
+    for cls, sets in allk.items():
+        for s in sets:
+            if not any(o < s for o in sets):
+                keep.add((cls, s))
+    for r in results:
+        seen = set()
+        nb = []
+        for (l, k) in r.bad:
+            cls, _, kinds = k.partition(",")
+            fs = frozenset(kinds.split(",")) if kinds else frozenset()
+            if (cls, fs) in keep and (cls, fs) not in seen:
+                seen.add((cls, fs))
+                nb.append((l, k))
+        r.bad = nb
+
+
+def validate_all(c, module, cfg, traces, heap="3g", timeout=3000, maxpar=8, minimal=False):
     """Validate trace chunks in parallel TLC processes and judge them; returns the TlcResults."""
     def val(t):
         return c.validate(module, cfg, t, timeout=timeout, heap=heap)
     with concurrent.futures.ThreadPoolExecutor(max_workers=min(maxpar, max(1, len(traces)))) as ex:
         results = list(ex.map(val, traces))
+    nbad = sum(len(r.bad) for r in results)
+    if minimal:
+        minimal_keys(results)
+    if nbad:
+        c.notes.append("monitor failures: %d lines" % nbad)
     for t, r in zip(traces, results):
         c.judge_trace(r, t)
+    c.notes.append("trace validation walls: " + ", ".join("%.0fs" % r.wall for r in results))
     return results
 
 
